@@ -44,6 +44,15 @@ func (e *Exec) canonOf(x *Term) *Term {
 		e.assume(jsonValid(c))
 		e.assume(tNe(c, mkStr("")))
 		e.assume(tEq(tEq(c, nullBlob), tEq(jcanon(x), nullBlob)))
+		e.assume(tImplies(tOr(oisObj(x), xisObj(x)), tNe(c, nullBlob))) // an object does not canonicalise to null
+		// canonicalisation preserves the object structure (C18 / macro model)
+		if len(e.props()) > 0 {
+			e.assume(tEq(oisObj(c), oisObj(x)))
+			for _, p := range e.props() {
+				e.assume(tEq(ohas(c, p), ohas(x, p)))
+				e.assume(tImplies(ohas(x, p), tEq(oget(c, p), jcanon(oget(x, p)))))
+			}
+		}
 	}
 	return c
 }
@@ -228,6 +237,13 @@ func init() {
 			}
 		}
 		panic(pathEnd{kind: "unsupported", msg: "json.Unmarshal into " + et.String()})
+	}
+	stubs["encoding/json.Valid"] = func(e *Exec, th *Thread, c *CallCtx, a []Val) StubRes {
+		b := a[0].(*BytesV)
+		if txt, ok := constJSONText(b.S); ok {
+			return ret(tAnd(tNot(b.Nil), mkBool(json.Valid([]byte(txt)))))
+		}
+		return ret(tAnd(tNot(b.Nil), tNe(b.S, mkStr("")), jsonValid(b.S)))
 	}
 	stubs["encoding/json.Marshal"] = func(e *Exec, th *Thread, c *CallCtx, a []Val) StubRes {
 		iv, _ := a[0].(*IfaceV)
